@@ -158,3 +158,21 @@ def spec_done(s, A):
 
 TWINS.update({"spec_descriptors": spec_descriptors, "spec_selected": spec_selected,
               "spec_done": spec_done, "spec_eval_guard": spec_eval_guard})
+
+
+def _as_guard(g):
+    from xstate_statemachine.models import GuardDefinition
+    if g is None or isinstance(g, GuardDefinition):
+        return g
+    return GuardDefinition(g)
+
+
+def spec_guard_value(interp, guard, event):
+    """value of a guard per the statement, or the string 'missing' when it must not be decided"""
+    try:
+        return spec_eval_guard(interp, _as_guard(guard), event)
+    except _Missing:
+        return "missing"
+
+
+TWINS.update({"spec_guard_value": spec_guard_value})
